@@ -575,3 +575,21 @@ def _last_yield(events, upto):
         if ev[0] == 'yield':
             last = ev[1]
     return last
+
+
+# ---------------------------------------------------------------------------------------------------
+# second run on the same task objects (same Lab object or a new Lab on the same storage)
+# ---------------------------------------------------------------------------------------------------
+
+def expect_second(spec: dict, obs, ex1: refmodel.Expect, second: dict) -> refmodel.Expect:
+    """Cache model after run 1 is read off the storage (which entries exist) with the values run 1 must have produced."""
+    pre = obs.model_before
+    model1 = {}
+    for nid, cached in obs.cached_mid.items():
+        if cached:
+            model1[nid] = ex1.value[nid] if (nid in ex1.value and ex1.status.get(nid) == 'ok') else pre.get(nid)
+    o2 = obs.second
+    o2.model_before = model1
+    storage_null = spec['lab'].get('storage', 'local') == 'none'
+    spec2 = spec if second.get('requested') is None else {**spec, 'requested': [{'ref': i, 'fresh': False} for i in second['requested']]}
+    return refmodel.evaluate(spec2, model1, context=o2.context, bust=second.get('bust', False), storage_null=storage_null)
